@@ -97,6 +97,7 @@ func (area) Generate(r *rng.R, thorough bool, index int) json.RawMessage {
 		return d
 	}
 	fail := func(p int) bool { return r.Chance(p) }
+	glinks := 1 // the generator's guess of the link count
 	for i := 0; i < n; i++ {
 		if i == teardownAt {
 			// drop every reference the callers hold, then go on
@@ -119,8 +120,18 @@ func (area) Generate(r *rng.R, thorough bool, index int) json.RawMessage {
 			o = op{K: "close", I: r.Intn(4)}
 		case x < 28:
 			o = op{K: "link"}
+			glinks++
 		case x < 33:
-			o = op{K: "unlink"}
+			// keep the last link most of the time, so that long histories
+			// are not dominated by calls on a released file
+			if glinks > 1 || r.Chance(25) {
+				o = op{K: "unlink"}
+				if glinks > 0 {
+					glinks--
+				}
+			} else {
+				o = op{K: "getattr"}
+			}
 		case x < 40:
 			o = op{K: "read", Off: uint64(r.Intn(10)), Len: uint64(r.Intn(8)), RF: fail(10)}
 		case x < 52:
